@@ -32,6 +32,14 @@ func genBasic(rng *rand.Rand, seed int64) *Scenario {
 	}
 	if rng.Intn(2) == 0 {
 		sc.Steps = append(sc.Steps, Step{At: 5*h + time.Duration(rng.Int63n(int64(h))), Kind: "stopctx", Inst: 1 + rng.Intn(n), Del: true})
+	} else if rng.Intn(2) == 0 {
+		// the runs are ended one after the other by cancelling their contexts; a Status() call overlaps each step-down
+		// (issued from inside the critical section, when the duration of the term is reported)
+		for i := 1; i <= n; i++ {
+			sc.Steps = append(sc.Steps, Step{At: time.Duration(2+2*i)*h + time.Duration(rng.Int63n(int64(h))), Kind: "cancelctx", Inst: i})
+			sc.Triggers = append(sc.Triggers, Trigger{Inst: i, Nth: 1, Phase: "observe", Step: Step{Kind: "snap", Inst: i}})
+		}
+		sc.End += time.Duration(2*n) * h
 	}
 	return sc
 }
@@ -138,8 +146,15 @@ func genStopPoints(rng *rand.Rand, seed int64) *Scenario {
 			// inside the critical section that raises the flag (first or second term) or writes the gauge 0: the call is
 			// parked on the election's mutex and runs as soon as the section ends - before the goroutines it spawned
 			tg.Phase, tg.Delay, tg.Nth = []string{"flag", "flag", "unflag"}[rng.Intn(3)], 0, 1+rng.Intn(2)
-			if rng.Intn(4) == 0 {
+			switch rng.Intn(5) {
+			case 0:
 				tg.Step = Step{Kind: "cancelctx", Inst: v}
+			case 1:
+				// a Status() call that overlaps the transition (phase observe: the flag is down, the state not yet written)
+				tg.Step = Step{Kind: "snap", Inst: v}
+				tg.Phase = []string{"flag", "unflag", "observe"}[rng.Intn(3)]
+				tg.Nth = 1
+				sc.Steps = append(sc.Steps, st)
 			}
 		}
 		sc.Triggers = append(sc.Triggers, tg)
@@ -253,6 +268,10 @@ func genFaults(rng *rand.Rand, seed int64) *Scenario {
 		}
 		sc.Insts = append(sc.Insts, is)
 		sc.Steps = append(sc.Steps, Step{At: time.Duration(i-1) * 30 * ms, Kind: "start", Inst: i})
+	}
+	if rng.Intn(3) == 0 {
+		// a Status() call that overlaps the first demotion of the first instance (issued from inside its critical section)
+		sc.Triggers = append(sc.Triggers, Trigger{Inst: 1, Nth: 1, Phase: "observe", Step: Step{Kind: "snap", Inst: 1}})
 	}
 	from := 2*h + time.Duration(rng.Int63n(int64(3*h)))
 	dur := time.Duration(rng.Int63n(int64(8 * h)))
@@ -424,6 +443,10 @@ func genTamper(rng *rand.Rand, seed int64) *Scenario {
 	}
 	for j := 0; j < 3; j++ {
 		sc.Steps = append(sc.Steps, Step{At: time.Duration(rng.Int63n(int64(t + 2*h))), Kind: []string{"validate", "validate-or-demote"}[rng.Intn(2)], Inst: 1 + rng.Intn(n)})
+	}
+	if rng.Intn(3) == 0 {
+		// a Status() call that overlaps the first demotion of the first instance (issued from inside its critical section)
+		sc.Triggers = append(sc.Triggers, Trigger{Inst: 1, Nth: 1, Phase: "observe", Step: Step{Kind: "snap", Inst: 1}})
 	}
 	sc.End = t + 10*h
 	return sc
